@@ -32,8 +32,10 @@ contract(L + "close", props=P, requires=[("open", "self._is_open")], ensures=[("
          modifies=["self._is_open"])
 contract(L + "add_paid_interest", props=P, types={"interest": "Dict[Str,Real]"},
          requires=[("noalias", "not same_object(self._paid_interest, interest)")],
-         ensures=[("recorded", "forall(lambda s=Str: at(self._paid_interest, s) == old(at(self._paid_interest, s)) + at(interest, s))")],
-         modifies=["content(self._paid_interest)"])
+         ensures=[("recorded", "forall(lambda s=Str: at(self._paid_interest, s) == old(at(self._paid_interest, s)) + at(interest, s))"),
+                  ("ghost_ledger", "forall(lambda s=Str: GHOST.ledger[s] == old(GHOST.ledger[s]) - at(interest, s))")],
+         modifies=["content(self._paid_interest)", "GHOST.ledger"],
+         ghost_exit=[("GHOST.ledger", "mmap_sub(GHOST.ledger, interest)")])
 # base contracts of the abstract loan methods: pure, non-negative amounts
 contract(L + "calculate_interest", props=P, abstract=True, returns="Dict[Str,Real]", modifies=[],
          types={"at": "DT", "prices": "Prices"},
@@ -166,11 +168,14 @@ contract(LM + "repay_loan", props=P + ["C11"], types={"loan_id": "Str"},
                             "- (l._borrowed_amount if s == l._borrowed_symbol else 0) - (at(l._paid_interest, s) - old(at(l._paid_interest, s)))))"),
                   ("borrowed", "let(lambda l=self._loans._items[loan_id]: forall(lambda s=Str: at(acc_of(self).borrowed, s) == old(at(acc_of(self).borrowed, s)) "
                                "- (l._borrowed_amount if s == l._borrowed_symbol else 0)))"),
+                  # C01: the only total that changes is by the interest paid, and the ledger records exactly that
+                  ("ledger", "forall(lambda s=Str: (at(acc_of(self).balances, s) - at(acc_of(self).borrowed, s)) - old(at(acc_of(self).balances, s) - at(acc_of(self).borrowed, s)) "
+                             "== GHOST.ledger[s] - old(GHOST.ledger[s]))"),
                   ("interest_nonneg", "let(lambda l=self._loans._items[loan_id]: forall(lambda s=Str: at(l._paid_interest, s) >= old(at(l._paid_interest, s))))"),
                   ("holds", "forall(lambda s=Str: at(acc_of(self).holds, s) <= old(at(acc_of(self).holds, s)))")],
          raises=REPAY_RAISES,
          modifies=ACC_MOD + ["self._loans._items[loan_id]._is_open", "content(self._loans._items[loan_id]._paid_interest)",
-                             "content(self._collateral_by_loan)"])
+                             "content(self._collateral_by_loan)", "GHOST.ledger"])
 
 contract(LM + "cancel_loan", props=P, types={"loan_id": "Str"},
          requires=[("inv", "lm_inv(self)")],
